@@ -15,7 +15,7 @@ case (8 blank-separated fields):
 obs:  <res;…> # <sink bytes per call, hex;…> # <log entry;…>
   log entry  <who>@<start>-<end>:<what the closure saw>
 -/
-import LolHtml.Model.Full
+import LolHtml.Model.FullCtl
 import LolHtml.Lane.Lex
 import LolHtml.Lane.Sel
 import LolHtml.Lane.Edit
@@ -74,9 +74,9 @@ def whoStr : Who → String
   | .end_ h => s!"z{h}"
 
 def seenStr : Seen → String
-  | .element n as sc chc rm =>
+  | .element n ns as sc chc rm =>
     let a := if as.isEmpty then "-" else "+".intercalate (as.map fun a => s!"{hexOrDash a.1}={hexOrDash a.2}")
-    s!"{hexOrDash n}:{a}:{b01 sc}{b01 chc}{b01 rm}"
+    s!"{hexOrDash n}:{Lex.nsNum ns}:{a}:{b01 sc}{b01 chc}{b01 rm}"
   | .endTag n rm => s!"{hexOrDash n}:{b01 rm}"
   | .text t last rm => s!"{hexOrDash t}:{b01 last}{b01 rm}"
   | .comment t rm => s!"{hexOrDash t}:{b01 rm}"
@@ -88,16 +88,16 @@ def entryStr (e : LogEntry) : String :=
 
 /-! ### running -/
 
-def world (cfg : Cfg) : World Full.St := ⟨Gen.Syntax.table, Gen.Tags.cfg, rawCtl cfg⟩
+def world (cfg : Cfg) : World (FullSt cfg) := fullWorld Gen.Syntax.table Gen.Tags.cfg cfg
 
-structure RunOut where
+structure RunOut (γ : Type) where
   results : List String
   outs : List String
-  rw : Rewriter Full.St
+  rw : Rewriter γ
 
-def sinkLen (r : Rewriter Full.St) : Nat := (sinkBytes r.sink).length
+def sinkLen {γ : Type} (r : Rewriter γ) : Nat := (sinkBytes r.sink).length
 
-def runChunks (w : World Full.St) (rw : Rewriter Full.St) (chunks : List Bytes) : RunOut := Id.run do
+def runChunks {γ : Type} (w : World γ) (rw : Rewriter γ) (chunks : List Bytes) : RunOut γ := Id.run do
   let mut rw := rw
   let mut results : List String := []
   let mut outs : List String := []
@@ -132,9 +132,9 @@ def run (line : String) : String :=
         { strict := strict == "1", bailOnMem := g / 2 % 2 == 1, bailOnHandler := g % 2 == 1,
           maxMem := if maxMem == 0 then 1000000000 else maxMem, prealloc := 0 }
       let w := world cfg
-      let rw : Rewriter Full.St := { stream := Stream.new w (St.init cfg) settings }
+      let rw : Rewriter (FullSt cfg) := { stream := Stream.new w (FullSt.init cfg) settings }
       let out := runChunks w rw (Lex.splitAtCuts input cuts)
-      let st := out.rw.stream.disp.ctl
+      let st := out.rw.stream.disp.ctl.1
       if out.results.contains "panic" || out.results.contains "internal" || st.fault.isSome then "PANIC model"
       else
         let log := if st.log.isEmpty then "-" else ";".intercalate (st.log.reverse.map entryStr)
